@@ -52,7 +52,8 @@ def cases(tier, seed):
             ('res', ['same', 'mixed']), ('cluster', ['all', 'second-only', 'first-only']),
             ('nevents', ['many', 'smallest-accepted', 'one-more']),      # 400 events is the smallest file the workflow accepts
             ('failed_row', ['none', 'first', 'middle']),                  # a row whose file does not exist, listed above the rows under test
-            ('mefnone', [False, True])]                                   # a manufacturer value given as None in the bead rows
+            ('mefnone', [False, True]),                                   # a manufacturer value given as None in the bead rows
+            ('samplevolt', ['recorded', 'absent'])]                       # sample files that do not record the optional detector voltage
     # (floating-point files always hold a few scatter events beyond the declared range: they are not clipped by the instrument)
     done = []
     for cfg in explore.deviations(dims, 1 if tier == 'quick' else 2):
@@ -62,7 +63,8 @@ def cases(tier, seed):
     # (no saturation gate, only the density gate's grid removes out-of-range events), and with the smallest accepted file
     base = {k_: v[0] for k_, v in dims}
     for extra in (dict(cont='float', gf=1.0), dict(cont='double', gf=1.0, hist=False), dict(cont='float', gf=1.0, nevents='smallest-accepted'),
-                  dict(cont='float', neg=True, gf=1.0), dict(mefnone=True, units='all-mef'), dict(mefnone=True, nbeads=2, ninst=2)):
+                  dict(cont='float', neg=True, gf=1.0), dict(mefnone=True, units='all-mef'), dict(mefnone=True, nbeads=2, ninst=2),
+                  dict(samplevolt='absent', units='all-mef'), dict(samplevolt='absent', cont='float')):
         cfg = dict(base, **extra)
         cfg['_dev'] = len(extra)
         if not any(all(d_.get(k_) == v for k_, v in cfg.items() if k_ != '_dev') for d_ in done):
@@ -127,7 +129,7 @@ def build_experiment(c, d):
             inst = insts[k % len(insts)]
             wg.write_fcs(os.path.join(d, 'sub', 'cells%d.fcs' % k), wg.cell_layout(inst, stream=50 + k, container=cfg['cont'], negatives=cfg['neg'] and cfg['cont'] != 'int',
                                                                                   n={'many': 800 + 150 * k, 'smallest-accepted': 400 + 600 * (k % 2), 'one-more': 401 + k}[cfg.get('nevents', 'many')],
-                                                                                  level=150.0 + 60 * k, overrange=cfg['cont'] != 'int',
+                                                                                  level=150.0 + 60 * k, overrange=cfg['cont'] != 'int', no_voltage=(cfg.get('samplevolt') == 'absent' and k % 2 == 0),
                                                                                   res=[1024, 256] if cfg.get('res') == 'mixed' else None))
             mybeads = [b for b in beads if b['inst'] == inst['id']]
             if cfg['units'] == 'mixed':
